@@ -425,6 +425,7 @@ func Coordinate(opt Options) int {
 		exe, _ = os.Executable()
 	}
 	gated := 0
+	histGated := 0
 	for _, d := range m.Deviations {
 		cls := d.Sig
 		if reported[cls] {
@@ -437,6 +438,17 @@ func Coordinate(opt Options) int {
 		if !opt.NoGate && opt.OnlyIndex < 0 && gated < 25 && !strings.HasPrefix(d.Sig, "fatal@") && !strings.HasPrefix(d.Sig, "hang@") {
 			gated++
 			ok = reproduces(exe, opt, d)
+			if !ok && n > 1 && histGated < 3 {
+				// not reproducible alone: does it follow deterministically from the cases this
+				// worker ran before it? Re-run that shard's cases in order, in one fresh process.
+				histGated++
+				if reproducesWithHistory(exe, opt, d, n) {
+					ok = true
+					d.Fields = cloneFields(d.Fields)
+					d.Fields["history"] = fmt.Sprintf("shard %d/%d up to index %d", int(d.Index%int64(n)), n, d.Index)
+					d.Input = fmt.Sprintf("[after all earlier cases of shard %d/%d, run in order in one process] ", int(d.Index%int64(n)), n) + d.Input
+				}
+			}
 		}
 		if !ok {
 			unrepro = append(unrepro, d)
@@ -673,6 +685,41 @@ func reproduces(exe string, opt Options, d Deviation) bool {
 	return false
 }
 
+func cloneFields(f Fields) Fields {
+	o := Fields{}
+	for k, v := range f {
+		o[k] = v
+	}
+	return o
+}
+
+// reproducesWithHistory: a fresh worker runs every case of the deviation's shard up to the
+// deviating case, in order; the deviation counts as reproduced if the same case deviates with
+// the same signature again (a deterministic consequence of the history, e.g. process-wide
+// state of the interpreter damaged by an earlier case).
+func reproducesWithHistory(exe string, opt Options, d Deviation, n int) bool {
+	cmd := exec.Command(exe, "--worker", opt.Prop, "--tier", d.Tier, "--shard", strconv.Itoa(int(d.Index%int64(n))), "--nshards", strconv.Itoa(n),
+		"--upto", strconv.FormatInt(d.Index, 10), "--seed", strconv.FormatInt(opt.Seed, 10))
+	cmd.Env = append(os.Environ(), "GOMAXPROCS=1")
+	outb, err := cmd.Output()
+	if err != nil {
+		return false
+	}
+	for _, l := range strings.Split(string(outb), "\n") {
+		if strings.HasPrefix(l, "RESULT ") {
+			var r WorkerResult
+			if json.Unmarshal([]byte(l[7:]), &r) == nil {
+				for _, x := range r.Deviations {
+					if x.Sig == d.Sig && x.Index == d.Index {
+						return true
+					}
+				}
+			}
+		}
+	}
+	return false
+}
+
 func writeReplay(d Deviation) string {
 	dir := filepath.Join(VerifDir, "replay", d.Prop)
 	os.MkdirAll(dir, 0o755)
@@ -680,6 +727,7 @@ func writeReplay(d Deviation) string {
 		"property": d.Prop, "tier": d.Tier, "index": d.Index, "fields": d.Fields, "input": d.Input,
 		"expected": d.Expected, "observed": d.Observed, "sig": d.Sig,
 		"replay_cmd": fmt.Sprintf("scripts/check.sh %s --replay <this file>", d.Prop),
+		"history":    d.Fields["history"],
 	}, "", " ")
 	h := sha1.Sum(b)
 	p := filepath.Join(dir, hex.EncodeToString(h[:6])+".json")
@@ -719,10 +767,33 @@ func ReplayFile(path string, opt Options) int {
 		Property string `json:"property"`
 		Tier     string `json:"tier"`
 		Index    int64  `json:"index"`
+		Sig      string `json:"sig"`
+		History  string `json:"history"`
 	}
 	if err := json.Unmarshal(b, &v); err != nil {
 		fmt.Fprintln(os.Stderr, err)
 		return 2
+	}
+	if v.History != "" {
+		// a deviation that needs the cases before it: re-run the shard prefix
+		var k, n int
+		var idx int64
+		if _, err := fmt.Sscanf(v.History, "shard %d/%d up to index %d", &k, &n, &idx); err != nil {
+			fmt.Fprintln(os.Stderr, "bad history:", v.History)
+			return 2
+		}
+		exe := opt.Exe
+		if exe == "" {
+			exe, _ = os.Executable()
+		}
+		d := Deviation{Prop: v.Property, Tier: v.Tier, Index: v.Index, Sig: v.Sig}
+		opt.Prop = v.Property
+		if reproducesWithHistory(exe, opt, d, n) {
+			fmt.Printf("VIOLATION property=%s replay=%s\n", v.Property, path)
+			return 1
+		}
+		fmt.Println("the recorded deviation does not occur on this tree")
+		return 0
 	}
 	opt.Prop = v.Property
 	opt.Tier = v.Tier
